@@ -5,11 +5,34 @@ func init() {
 		Jobs: []Job{
 			{Workload: "C14.rt", Mode: "plain", QuickB: 8, ThoroughB: 16},
 			{Workload: "C14.hostile", Mode: "plain", QuickB: 16, ThoroughB: 16},
+			{Workload: "C14.ucon", Mode: "plain", QuickB: 4, ThoroughB: 16},
+			{Workload: "C14.staking", Mode: "plain", QuickB: 4, ThoroughB: 16},
+			{Workload: "C14.hostile", Mode: "race", QuickB: 4, ThoroughB: 8, ThoroughOnly: true},
 		},
-		Level:       "exploration",
-		Rule:        "wip",
-		Explanation: "wip",
-		Assumptions: []string{},
-		Require:     map[string]int64{},
+		Level: "exploration",
+		Rule: "C14.rt: PRNG/reflection-generated wire-normal values of 56 wire/disk types (Header, Block, Body, Transaction, Receipt(+ForStorage), Log, Validator, ValKindStat, ValidatorsStat, ValidatorIndex, WithdrawQueue/Record, staking Record, Account, delegations, pendingRelationship, staking.Message + 8 Tx* payloads, Evidence, []Evidence, EvidenceDoubleSign(V5), EvidenceInactive, SlashData(V5), LogData, ucon Message/ConsensusCommon/BlockHashWithVotes/BlockConsensusData/UconValidators/SingleVote/VoteItem, 12 you-protocol messages (mirror structs), the bare interface{} decoder), each encoded twice (determinism), checked canonical by an independent RLP model, decoded the way the node decodes it (NewValidatorsStat(), **UconValidators, p2p.Msg.Decode transcription ...), compared by normalised deep equality + re-encoding equality + Hash(). " +
+			"C14.hostile: for every type and each of 24 mutation kinds (bit flips, truncation, trailing bytes, leading-zero ints, 0x00 ints, long-form lengths for short payloads, zero-padded lengths, wrapped single bytes, claimed lengths bigger/smaller/huge up to 2^64-1, kind swaps, empty string<->empty list, dropped/duplicated/swapped/extra children, random leaves, small ints, nesting to depth 3000, random bytes, splices) the input is decoded under a TotalAlloc bound of 1024*len+1MiB with panics recovered; accepted inputs of the categories the statement lists must re-encode to the same bytes (the class names the innermost struct field that differs), post-decode accessors used by the handlers must not panic; rlp.Split/SplitList/SplitString/CountValues get the same bytes. " +
+			"C14.ucon: Server.HandleMsg->MessageHandler.HandleMsg of a mining ucon.Server (StartMining wiring of judger, Proposal, Voter; timers parked) on a core.BlockChain with 6 harness-owned validators and 40 fabricated canonical blocks: all 8 message codes x signer {garbage, non-validator, chamber validator, house validator} x round class {zero, old, very old, same, future, far future, 2^64+, max64} x {honest VRF/BLS crypto, random} x payload/message mutations. " +
+			"C14.staking: TxConverter.ApplyMessage with hostile Data (all 9 actions, unknown actions, payload and message mutations, extreme values) on a live MessageContext. distinct_nontrivial = distinct (type, mutation, outcome/error bucket[, difference path]) / (code, signer, round class, mutated?, outcome) / (action, mutated?, failed) signatures.",
+		Explanation: "held = no round-trip difference, no panic/death, no allocation beyond the bound, no accepted-but-non-canonical input of a listed category, no undecodable message accepted or re-gossiped by the consensus handler or applied by the staking converter, on the executions of this run",
+		Assumptions: []string{
+			"keccak256 from golang.org/x/crypto and the independent RLP item parser/encoder in model/c14_rlptree.go are correct",
+			"the you-protocol wire structs are local mirrors of you/protocol.go and msg.Decode is transcribed as rlp.NewStream(payload,size).Decode (package you/p2p cannot be linked under Go 1.23: quic-go/qtls panics at init)",
+			"accept=>canonical is judged only for the categories the statement lists (header, block, transaction, consensus payload, vote container, staking message, evidence, validator record, plus the bare interface{} decoder); for other types (ValidatorIndex, receipts, logs, statistics ...) non-canonical acceptance is counted under unlisted:* but not judged",
+			"trailing bytes after the first value of a p2p frame are ignored by p2p.Msg.Decode by design and are not judged",
+			"C14.ucon: the 40 blocks above genesis are fabricated (written with rawdb, genesis state roots, well-formed consensus data) rather than certified; total chamber stake (20 600) exceeds every sortition threshold, so the C04 choose() p>1 panic is outside this workload (excluded_patterns)",
+			"allocation is measured with runtime.MemStats.TotalAlloc deltas in single-goroutine children (C14.rt, C14.hostile)",
+			"C14.ucon: message timestamps are taken relative to the wall clock because MessageHandler.HandleMsg itself compares them with time.Now(); no oracle reads the clock (150-300 ms sleeps only let asynchronous event posts drain before the re-gossip check, a late event can only hide, never create, a report)",
+		},
+		Require: map[string]int64{
+			"max_types_covered": 56, "rt_values": 50000, "rt_equal": 40000, "rt_hash_compared": 5000,
+			"hostile_inputs": 200000, "accepted": 20000, "rejected": 100000, "accepted_canonical": 20000,
+			"mut_claim-huge": 5000, "mut_length-leading-zero": 5000, "mut_leading-zero-int": 5000, "mut_wrapped-single": 3000,
+			"mut_empty-swap": 5000, "mut_deep-nest": 5000, "mut_truncate": 5000, "mut_trailing": 5000, "mut_leaf-small-int": 3000,
+			"raw_calls": 200000, "vote_container_accepted_vote_nonnil": 500, "rlp_level_invalid_rejected": 50000,
+			"ucon_msgs": 4000, "ucon_must_reject": 800, "ucon_by_validator": 1500, "ucon_by_nobody": 300, "ucon_by_outsider": 300,
+			"ucon_gossiped_total": 20, "ucon_rejected": 2000,
+			"stk_msgs": 10000, "stk_must_reject": 1500, "stk_succeeded": 100, "stk_failed": 5000,
+		},
 	}
 }
